@@ -71,10 +71,10 @@ func mk(a attrs) D {
 }
 
 func run(c *mon.Ctx) {
-	c.Rule("CanClose: all 256 incoming types x all 256 open types x event-id equal/different x signal PTS equal/different x incoming segment_num equal/unequal to segments_expected x incoming sub-segment fields absent / equal / unequal (exhaustive), other attributes randomised; IsIn/IsOut for all 256 types; Equal over a pool spanning every compared attribute: definition, reflexivity, symmetry (all pairs), transitivity (all triples), congruence with CanClose. distinct non-trivial = distinct (incoming type, open type, conditions) cells in which the frozen table has a rule, plus distinct Equal attribute-difference patterns")
+	c.Rule("CanClose: all 256 incoming types x all 256 open types x event-id equal/different x signal PTS equal/different x incoming segment_num equal to / below / above segments_expected (incl. 0 and 255) x incoming sub-segment fields absent / equal / unequal (exhaustive), other attributes randomised; IsIn/IsOut for all 256 types; Equal over a pool spanning every compared attribute: definition, reflexivity, symmetry (all pairs), transitivity (all triples), congruence with CanClose. distinct non-trivial = distinct (incoming type, open type, conditions) cells in which the frozen table has a rule, plus distinct Equal attribute-difference patterns")
 	c.Assume("the oracle is a frozen transcription of the library's documented rule table (internal/ref/scte35rules.go) and of the in/out lists; descriptors are real library objects built through the public API")
 
-	c.Exhaustive("CanClose: 256 x 256 types x 2 x 2 x 2 x 3 condition values", 256*256*24)
+	c.Exhaustive("CanClose: 256 x 256 types x event 2 x PTS 2 x 8 (segment_num, segments_expected) pairs (equal, below, above, zero) x 3 sub-segment variants", 256*256*96)
 	c.StreamSeedless("canclose", 256, func(in int, r *gen.Rand) {
 		const P, Q = 900000, 900090
 		type inc struct {
@@ -84,12 +84,10 @@ func run(c *mon.Ctx) {
 			subVar int
 		}
 		var incs []inc
-		for _, numEq := range []bool{true, false} {
+		for _, ne := range [][2]byte{{3, 3}, {3, 4}, {5, 4}, {2, 0}, {0, 0}, {255, 255}, {255, 254}, {0, 1}} {
+			numEq := ne[0] == ne[1]
 			for sv := 0; sv < 3; sv++ {
-				a := attrs{Type: byte(in), Event: 7, PTS: P, HasPTS: true, SegNum: 3, SegExp: 3, Noise: r.Uint32() | 1}
-				if !numEq {
-					a.SegExp = 4
-				}
+				a := attrs{Type: byte(in), Event: 7, PTS: P, HasPTS: true, SegNum: ne[0], SegExp: ne[1], Noise: r.Uint32() | 1}
 				switch sv {
 				case 1:
 					a.HasSub, a.SubNum, a.SubExp = true, 2, 2
